@@ -30,14 +30,37 @@ Proof.
     split; auto. rewrite app_length, Hl. cbn [length]. lia.
 Qed.
 
+Lemma copy_chunks_app f n d out : exists o, copy_chunks f n d out = o ++ out.
+Proof.
+  revert n out; induction f as [|f IH]; intros n out; cbn [copy_chunks].
+  - exists []; reflexivity.
+  - destruct (Nat.leb n d).
+    + eexists; reflexivity.
+    + destruct (IH (n - d)%nat (firstn d out ++ out)) as [o Ho].
+      exists (o ++ firstn d out). rewrite Ho, <- app_assoc. reflexivity.
+Qed.
+
+Lemma copy_chunks_length f n d out :
+  (0 < d)%nat -> (d <= length out)%nat -> (n < f)%nat ->
+  length (copy_chunks f n d out) = (n + length out)%nat.
+Proof.
+  intros Hd. revert n out; induction f as [|f IH]; intros n out Hl Hn; [lia|].
+  cbn [copy_chunks]. destruct (Nat.leb n d) eqn:E.
+  - apply Nat.leb_le in E. rewrite app_length, firstn_length, skipn_length. lia.
+  - apply Nat.leb_gt in E.
+    rewrite IH.
+    + rewrite app_length, firstn_length. lia.
+    + rewrite app_length, firstn_length. lia.
+    + lia.
+Qed.
+
 Definition wf_ast (s : ast) : Prop := a_len s = N.of_nat (length (a_out s)).
 
 Lemma run_mono {A} (p : prog A) s :
   exists o c,
     a_out (res_state (run p s)) = o ++ a_out s /\
     a_in s = c ++ a_in (res_state (run p s)) /\
-    a_pos (res_state (run p s)) = a_pos s + N.of_nat (length c) /\
-    a_len (res_state (run p s)) = a_len s + N.of_nat (length o).
+    a_pos (res_state (run p s)) = a_pos s + N.of_nat (length c).
 Proof.
   revert s; induction p as [a|e|k IH|k IH|k IH|k IH|b k IH|d l k IH|k IH|d k IH|k IH];
     intros s; cbn [run].
@@ -45,34 +68,32 @@ Proof.
   - exists [], []. cbn. repeat split; auto; lia.
   - destruct (a_in s) as [|b r] eqn:E.
     + exists [], []. cbn. rewrite E. repeat split; auto; lia.
-    + destruct (IH b (mkAst r (a_pos s + 1) (a_out s) (a_len s))) as [o [c [H1 [H2 [H3 H4]]]]].
+    + destruct (IH b (mkAst r (a_pos s + 1) (a_out s) (a_len s))) as [o [c [H1 [H2 H3]]]].
       cbn [a_out a_in a_pos a_len] in *.
-      exists o, (b :: c). rewrite H1, H3, H4. repeat split; auto.
+      exists o, (b :: c). rewrite H1, H3. repeat split; auto.
       * cbn [app]. f_equal. exact H2.
       * cbn [length]. lia.
   - destruct (Nat.leb _ _) eqn:E.
     + match goal with |- context[run (k ?v) ?s'] =>
-        destruct (IH v s') as [o [c [H1 [H2 [H3 H4]]]]] end.
+        destruct (IH v s') as [o [c [H1 [H2 H3]]]] end.
       cbn [a_out a_in a_pos a_len] in *.
       set (n := N.to_nat (pad_count (a_pos s))) in *.
-      exists o, (firstn n (a_in s) ++ c). rewrite H1, H3, H4. repeat split; auto.
+      exists o, (firstn n (a_in s) ++ c). rewrite H1, H3. repeat split; auto.
       * rewrite <- app_assoc, <- H2. symmetry; apply firstn_skipn.
       * rewrite app_length, firstn_length. apply Nat.leb_le in E. lia.
     + exists [], []. cbn. repeat split; auto; lia.
   - apply IH.
   - apply IH.
-  - destruct (IH (mkAst (a_in s) (a_pos s) (b :: a_out s) (a_len s + 1))) as [o [c [H1 [H2 [H3 H4]]]]].
+  - destruct (IH (mkAst (a_in s) (a_pos s) (b :: a_out s) (a_len s + 1))) as [o [c [H1 [H2 H3]]]].
     cbn [a_out a_in a_pos a_len] in *.
-    exists (o ++ [b]), c. rewrite H1, H3, H4, <- app_assoc. repeat split; auto.
-    rewrite app_length. cbn [length]. lia.
+    exists (o ++ [b]), c. rewrite H1, H3, <- app_assoc. repeat split; auto.
   - destruct (_ && _).
-    + destruct (copy_hist_app (N.to_nat l) (N.to_nat d) (a_out s)) as [oc [Hc Hl]].
+    + destruct (copy_chunks_app (S (N.to_nat l)) (N.to_nat l) (N.to_nat d) (a_out s)) as [oc Hc].
       rewrite Hc.
       match goal with |- context[run k ?s'] =>
-        destruct (IH s') as [o [c [H1 [H2 [H3 H4]]]]] end.
+        destruct (IH s') as [o [c [H1 [H2 H3]]]] end.
       cbn [a_out a_in a_pos a_len] in *.
-      exists (o ++ oc), c. rewrite H1, H3, H4, <- app_assoc. repeat split; auto.
-      rewrite app_length, Hl. lia.
+      exists (o ++ oc), c. rewrite H1, H3, <- app_assoc. repeat split; auto.
     + exists [], []. cbn. repeat split; auto; lia.
   - apply IH.
   - apply IH.
@@ -81,9 +102,17 @@ Qed.
 
 Lemma run_wf {A} (p : prog A) s : wf_ast s -> wf_ast (res_state (run p s)).
 Proof.
-  unfold wf_ast. intros H.
-  destruct (run_mono p s) as [o [c [H1 [_ [_ H4]]]]].
-  rewrite H4, H1, app_length, H. lia.
+  unfold wf_ast.
+  revert s; induction p as [a|e|k IH|k IH|k IH|k IH|b k IH|d l k IH|k IH|d k IH|k IH];
+    intros s H; cbn [run]; auto.
+  - destruct (a_in s); auto.
+  - destruct (Nat.leb _ _); auto.
+  - apply IH. cbn [a_len a_out length]. lia.
+  - destruct (_ && _) eqn:E; auto.
+    apply IH. cbn [a_len a_out].
+    apply andb_true_iff in E as [E1 E2].
+    apply N.ltb_lt in E1. apply N.leb_le in E2.
+    rewrite copy_chunks_length; lia.
 Qed.
 
 (* ---- G2: locality --------------------------------------------------- *)
@@ -299,7 +328,7 @@ Section ByteLevel.
         change (ast_init (bits_of cut ++ bits_of rest))
           with (ext (ast_init (bits_of cut)) (bits_of rest)).
         destruct (run_extend_ueof p (ast_init (bits_of cut)) (bits_of rest) Hp Ec) as [o Ho].
-        unfold res_out. rewrite Ho, rev_app_distr. apply prefix_of_app.
+        unfold res_out. rewrite !fast_rev_eq, Ho, rev_app_distr. apply prefix_of_app.
       + exfalso.
         assert (Hne' : res_err (decode p cut) <> Some EUEOF).
         { rewrite Ec. intros H; inversion H; subst.
@@ -307,7 +336,7 @@ Section ByteLevel.
         destruct (decode_trailing p cut rest Hp Hne') as [_ [_ Hp3]].
         rewrite Hp3 in Hpos.
         unfold decode, res_pos in Hpos.
-        destruct (run_mono p (ast_init (bits_of cut))) as [o [c [_ [H2 [H3 _]]]]].
+        destruct (run_mono p (ast_init (bits_of cut))) as [o [c [_ [H2 H3]]]].
         cbn [ast_init a_in a_pos] in H2, H3.
         assert (length c <= length (bits_of cut))%nat.
         { rewrite H2, app_length. lia. }
@@ -317,7 +346,7 @@ Section ByteLevel.
       destruct (decode_trailing p cut rest Hp Hne') as [_ [_ Hp3]].
       rewrite Hp3 in Hpos.
       unfold decode, res_pos in Hpos.
-      destruct (run_mono p (ast_init (bits_of cut))) as [o [c [_ [H2 [H3 _]]]]].
+      destruct (run_mono p (ast_init (bits_of cut))) as [o [c [_ [H2 H3]]]].
       cbn [ast_init a_in a_pos] in H2, H3.
       assert (length c <= length (bits_of cut))%nat.
       { rewrite H2, app_length. lia. }
